@@ -7,6 +7,7 @@ import os
 import numpy as np
 
 from mc.engine import Clause, Res
+from mc import layouts as _layouts
 from mc import synth, refmodel
 
 import spikeglx
@@ -112,6 +113,8 @@ def reader_check(case):
             lvl = np.array([0, 0, 0, int(thr / s2v) - 3, int(thr / s2v) + 3, 20000, 1], dtype=np.int64)
             tr = lvl[rng.integers(0, len(lvl), ns)] + floor
             tr[:ns // 4] = floor            # >= 25 % of the samples at the floor => the 10th percentile is the floor
+            if a % 2 == 1:
+                tr[ns // 4:ns // 4 + ns // 40] = floor - 9000       # 2.5 % of glitch samples far below the floor: the documented 10th percentile ignores them
             data[:, a] = tr.astype(np.int16)
             volts = (data[:, a].astype(np.float32).astype(np.float64) * s2v)
             volts = volts - np.percentile(volts, 10)
@@ -295,5 +298,6 @@ CHECK = {
         Clause("trains", "every 0/1 train of length 2..14 through fronts/rises/falls, 1-D and 2-D along both axes", cases=train_cases, check=train_check),
         Clause("steps", "every train over {0,1,2} with step thresholds and analog mode", cases=step_cases, check=step_check),
         Clause("end-to-end", "all trains on each of the 16 lines of a written recording", cases=e2e_cases, check=e2e_check),
+        _layouts.make_clause(__import__("checks._layout_specs", fromlist=["x"]).c10()),
     ],
 }
